@@ -64,7 +64,7 @@ def units(tier, seed):
     # single steps under every schema
     for sid, fam, size in [("basic", "blocks", 5), ("list", "lists", 10), ("struct", "struct", 6), ("table", "table", 12),
                            ("attrs", "attrs", 3), ("topmarks", "topmarks", 4), ("strict_hb", "strict", 9),
-                           ("fixed", "fixed", 10), ("title", "title", 8), ("iso", "iso", 7)]:
+                           ("fixed", "fixed", 10), ("title", "title", 8), ("iso", "iso", 7), ("list", "astral", 5)]:
         nb = 4
         for b in range(nb):
             out.append({"kind": "steps", "sid": sid, "family": fam, "size": size if q else size + 1, "block": b,
